@@ -42,6 +42,11 @@ static var mk_stack(var type, const void* data, size_t sz) {
 /* ---- Blob: a plain struct with no instances (default byte-wise cmp/hash/assign) ------- */
 struct Blob { unsigned char b[16]; };
 static var Blob = Cello(Blob);
+/* user types whose names are prefixes / extensions of other type names (name order, exact name equality) */
+static var Blo = CelloEmpty(Blo);
+static var BlobX = CelloEmpty(BlobX);
+static var In = CelloEmpty(In);
+static var IntX = CelloEmpty(IntX);
 
 /* ---- Probe: element type with constructor, assignment, destructor, owning heap memory - */
 struct Probe { int64_t token; int64_t val; char* mem; };
@@ -164,7 +169,7 @@ static struct { const char* name; var* t; } types[] = {
   {"Concat",&Concat},{"Get",&Get},{"Sort",&Sort},{"Resize",&Resize},{"C_Str",&C_Str},{"C_Int",&C_Int},
   {"C_Float",&C_Float},{"Stream",&Stream},{"Pointer",&Pointer},{"Call",&Call},{"Format",&Format},
   {"Show",&Show},{"Current",&Current},{"Start",&Start},{"Lock",&Lock},{"Mark",&Mark},
-  {"Blob",&Blob},{"Probe",&Probe},{NULL,NULL}
+  {"Blob",&Blob},{"Probe",&Probe},{"Blo",&Blo},{"BlobX",&BlobX},{"In",&In},{"IntX",&IntX},{NULL,NULL}
 };
 static var type_by_name(const char* n) {
   for (int i = 0; types[i].name; i++) { if (strcmp(types[i].name, n) is 0) { return *types[i].t; } }
